@@ -83,7 +83,7 @@ CHECKS["C11"] = ("vcheck", "proptest messages signed through the Writer in all t
     "Trusts the hmac/sha1/sha2 crates as primitives (vector-checked); composition is vmodel::tsig.", "§4 C11")
 
 CHECKS["C26"] = ("vcheck", "model-based: proptest histories of (advance g seconds via the verif_hooks time-shift hook, request) against an unbounded-integer token bucket; sent responses compared with an unlimited twin server",
-    "Generated search with shrinking over histories of up to 200 steps with gaps from 0 to 2^32+1 seconds incl. the u32 overflow boundaries of rate x seconds; every step's send/slip/drop verdict checked; slip 0/1 exact, slip >= 2 either. A second sub-check advances time in multiples of 250 ms (hook with millisecond resolution) against a reference bucket that carries the sub-second remainder.",
+    "Generated search with shrinking over histories of up to 200 steps with gaps from 0 to 2^32+1 seconds incl. the u32 overflow boundaries of rate x seconds; every step's send/slip/drop verdict checked; slip 0/1 exact, slip >= 2 either. One history in five is TSIG-signed (limited responses then carry a TSIG record). A second sub-check advances time in multiples of 250 ms (hook with millisecond resolution) against a reference bucket that carries the sub-second remainder.",
     "Uses the hook Server::verif_rrl_shift_time (feature verif_hooks). Real time also passes: histories taking > 0.5 s are retried; sub-second remainders are carried by the limiter so < 1 s cannot add a refill. The sub-second sub-check judges only histories that ran in < 200 ms of real time.", "§4 C26")
 CHECKS["C27"] = ("vcheck", "proptest pairs of requests against a fresh limiter with a limit of one per stream; executable stream-key predicate (family, masked prefix, category, effective name incl. wildcard source from the reference resolver)",
     "Generated search with shrinking; pairs are built as near-copies so that exactly one key component differs in most cases (counted in classes); table sizes 1/7/65537 so bucket collisions (which evict and send) are exercised.",
@@ -116,7 +116,7 @@ CHECKS["C30"] = ("vcheck", "proptest batches of framed requests (valid, malforme
     "OS thread scheduling is not owned (segmentation, pipelining and pauses are). Client-side timeouts (3 s; the server's read timeout is 5 s) are retried on a fresh connection and reported only after three failures in a row; a close with unread pipelined data behind it (kernel RST may discard earlier responses) is counted, not judged; TSIG time-signed of unsigned error responses may differ by 5 s.", "§4 C30")
 
 CHECKS["C31"] = ("vcheck", "model-based stateful testing against the real daemon: proptest histories of configuration and zone-file edits over five nested zones with SIGHUP after each step; oracle = reference model 'latest good data per zone' compared through UDP probes whose answers identify zone and version",
-    "Generated search with shrinking over histories of 1-8 steps (per zone: configured or not x keep / new valid version, every third one with validation warnings only / touch / syntactically broken / fails validation, alone or together with warnings / deleted / renamed / main file that $INCLUDEs another file, which is repaired or removed on its own; generated order of the zones in the configuration; blocking and Tokio providers); 15 probes per step (apex, www, nonexistent name of every zone) judged for REFUSED / SERVFAIL / data of (zone, version) / negative answer of the enclosing (zone, version).",
+    "Generated search with shrinking over histories of 1-8 steps (per zone: configured or not x keep / new valid version, every third one with validation warnings only / touch / syntactically broken / fails validation, alone or together with warnings / deleted / renamed / main file that $INCLUDEs another file, which is repaired or removed on its own; generated order of the zones in the configuration; blocking and Tokio providers); 15 probes per step (apex, www, nonexistent name of every zone) judged for REFUSED / SERVFAIL / data of (zone, version) / negative answer of the enclosing (zone, version). Sub-check reload-race: a large zone file replaced 0-80 ms after SIGHUP; whichever version that reload serves is accepted, the next reload must serve the replacement.",
     "quandaryd is built from /repo's working tree into /verif/.target-daemon and run as a child process on a loopback port; a sentinel zone whose TXT carries the step number tells when the atomically swapped catalog is live; modification times are set explicitly and strictly increase with every write; a daemon that does not come up or never shows the sentinel is exit 2, not a violation.", "§4 C31")
 
 NOT_YET = {}
